@@ -12,11 +12,18 @@ type PointStorage struct {
 	bttest.Storage
 	// IterPoints: also yield before every row handed to an iteration callback.
 	IterPoints bool
+	// OnCreate, if set, receives the raw (unwrapped) Rows of every table that is created, so that a
+	// harness can pre-populate large fixtures without paying the API path on every execution.
+	OnCreate func(name string, rows bttest.Rows)
 }
 
 func (p PointStorage) Create(t *btapb.Table) bttest.Rows {
 	yield("Storage.Create")
-	return &pointRows{Rows: p.Storage.Create(t), iter: p.IterPoints}
+	inner := p.Storage.Create(t)
+	if p.OnCreate != nil {
+		p.OnCreate(t.Name, inner)
+	}
+	return &pointRows{Rows: inner, iter: p.IterPoints}
 }
 func (p PointStorage) Open(t *btapb.Table) bttest.Rows {
 	return &pointRows{Rows: p.Storage.Open(t), iter: p.IterPoints}
